@@ -3,9 +3,77 @@
 -/
 import Rtcp.Spec.All
 import Rtcp.Proofs.FciLemmas
+import Rtcp.Proofs.ReadLemmas
+import Rtcp.Proofs.ParsersFraming
 
 namespace Rtcp.Proofs
 open Rtcp Rtcp.Impl Rtcp.Spec
+
+/-! ## helpers -/
+
+theorem toUInt8_toNat_lt (n : Nat) (h : n < 256) : n.toUInt8.toNat = n := by
+  simp [Nat.toUInt8, UInt8.toNat_ofNat']; omega
+
+theorem toUInt32_toNat_lt (n : Nat) (h : n < 4294967296) : n.toUInt32.toNat = n := by
+  simp [Nat.toUInt32, UInt32.toNat_ofNat']; omega
+
+def byteBits (b : UInt8) : List Bool := (List.range 8).map (fun i => b.toNat.testBit (7 - i))
+
+theorem byteBits_length (b : UInt8) : (byteBits b).length = 8 := by simp [byteBits]
+
+theorem bitsOf_nil : bitsOf [] = [] := rfl
+theorem bitsOf_cons (x : UInt8) (xs : Bytes) : bitsOf (x :: xs) = byteBits x ++ bitsOf xs := by
+  simp [bitsOf, byteBits]
+
+theorem bitsOf_append (xs ys : Bytes) : bitsOf (xs ++ ys) = bitsOf xs ++ bitsOf ys := by
+  simp [bitsOf]
+
+theorem bitsOf_length (xs : Bytes) : (bitsOf xs).length = 8 * xs.length := by
+  induction xs with
+  | nil => rfl
+  | cons x xs ih => rw [bitsOf_cons, List.length_append, byteBits_length, ih, List.length_cons]; omega
+
+theorem bitsOf_take (xs : Bytes) (m : Nat) : bitsOf (xs.take m) = (bitsOf xs).take (8 * m) := by
+  induction xs generalizing m with
+  | nil => simp [bitsOf_nil]
+  | cons x xs ih =>
+    cases m with
+    | zero => simp [bitsOf_nil]
+    | succ m =>
+      rw [List.take_succ_cons, bitsOf_cons, bitsOf_cons, ih, List.take_append, byteBits_length]
+      have h1 : (byteBits x).take (8 * (m + 1)) = byteBits x :=
+        List.take_of_length_le (by rw [byteBits_length]; omega)
+      rw [h1, show 8 * (m + 1) - 8 = 8 * m by omega]
+
+theorem mask_bits : ∀ k : Fin 9, ∀ n : Fin 256,
+    (byteBits (n.val / 2 ^ k.val * 2 ^ k.val % 256).toUInt8).take (8 - k.val)
+      = (byteBits n.val.toUInt8).take (8 - k.val) := by
+  decide +kernel
+
+theorem mask_bits' (l : UInt8) (k : Nat) (hk : k ≤ 8) :
+    (byteBits (l.toNat / 2 ^ k * 2 ^ k % 256).toUInt8).take (8 - k) = (byteBits l).take (8 - k) := by
+  have := mask_bits ⟨k, by omega⟩ ⟨l.toNat, l.toNat_lt⟩
+  simpa [Read.toNat_toUInt8] using this
+
+
+theorem pad4_bounds (n : Nat) : n ≤ pad4 n ∧ pad4 n < n + 4 := by
+  unfold pad4; omega
+
+theorem upsert_keys_mem (m : List (UInt32 × UInt8)) (k : UInt32) (v : UInt8) (x : UInt32) :
+    x ∈ (FirBuilder.upsert k v m).map (·.1) ↔ x = k ∨ x ∈ m.map (·.1) := by
+  induction m with
+  | nil => simp [FirBuilder.upsert]
+  | cons e es ih =>
+    obtain ⟨a, b⟩ := e
+    simp only [FirBuilder.upsert]
+    by_cases hak : a = k
+    · subst hak; simp
+    · have : (a == k) = false := by simpa using hak
+      simp only [this, Bool.false_eq_true, if_false, List.map_cons, List.mem_cons, ih]
+      constructor
+      · rintro (h | h | h) <;> simp [h]
+      · rintro (h | h | h) <;> simp [h]
+
 
 theorem fir_entries_eq {ε : Type} (d : Bytes) :
     (Fir.entries d : R ε (List (UInt32 × UInt8) × Bool))
@@ -34,12 +102,6 @@ theorem sli_entries_eq {ε : Type} (d : Bytes) :
 /- RPSI: on every accepted FCI the payload type is the low 7 bits and the bit string, with the
     reported number of trailing bits dropped, is the reference bit string; the slice lies in the input -/
 
-theorem rpsi_decode_eq {ε : Type} (d : Bytes) (h : Rpsi.parse d = .ok d) :
-    ∃ pt bits s k, rpsiDecode d = some (pt, bits) ∧
-      (Rpsi.payloadType d : R ε UInt8) = .ok pt.toUInt8 ∧
-      (Rpsi.bitString 0 d : R ε (Slice × Nat)) = .ok (s, k) ∧
-      (bitsOf s.bytes).take (8 * s.bytes.length - k) = bits ∧ SubSlice s d := by
-  sorry
 
 theorem rpsi_parse_ok_iff (d v : Bytes) :
     Rpsi.parse d = .ok v ↔ v = d ∧ 4 ≤ d.length ∧ u8At d 0 / 8 + 2 ≤ d.length := by
@@ -54,6 +116,31 @@ theorem rpsi_parse_ok_iff (d v : Bytes) :
     · simp; constructor
       · intro h; exact ⟨h.symm, by omega, by omega⟩
       · intro h; exact h.1.symm
+
+theorem rpsi_decode_eq {ε : Type} (d : Bytes) (h : Rpsi.parse d = .ok d) :
+    ∃ pt bits s k, rpsiDecode d = some (pt, bits) ∧
+      (Rpsi.payloadType d : R ε UInt8) = .ok pt.toUInt8 ∧
+      (Rpsi.bitString 0 d : R ε (Slice × Nat)) = .ok (s, k) ∧
+      (bitsOf s.bytes).take (8 * s.bytes.length - k) = bits ∧ SubSlice s d := by
+  obtain ⟨_, h4, hpb⟩ := (rpsi_parse_ok_iff d d).mp h
+  match d, h4, hpb with
+  | pb :: pt :: rest, h4, hpb =>
+    simp only [u8At, List.getD_cons_zero, List.length_cons] at hpb h4
+    refine ⟨pt.toNat % 128, _, ⟨2, rest.take (rest.length - pb.toNat / 8)⟩, pb.toNat % 8, rfl, ?_, ?_, ?_, ?_⟩
+    · simp [Rpsi.payloadType, idx]
+    · simp only [Rpsi.bitString, Rpsi.paddingBytes, idx, List.getElem?_cons_zero, R.ok_bind, R.pure_eq]
+      rw [Read.usub_ok _ _ (by omega), Read.usub_ok _ _ (by simp only [List.length_cons]; omega)]
+      simp only [R.ok_bind, sliceS, List.length_cons]
+      rw [if_pos (by omega), show rest.length + 1 + 1 - pb.toNat / 8 = (rest.length - pb.toNat / 8) + 2 by omega]
+      simp only [R.ok_bind, List.take_succ_cons, List.drop_succ_cons, List.drop_zero]
+      congr 2; omega
+    · simp only
+      rw [bitsOf_take, List.take_take, List.length_take]
+      congr 1; omega
+    · simp only [SubSlice, range, List.length_take, List.length_cons]
+      refine ⟨by omega, ?_⟩
+      rw [show 2 + min (rest.length - pb.toNat / 8) rest.length = (rest.length - pb.toNat / 8) + 2 by omega]
+      simp only [List.take_succ_cons, List.drop_succ_cons, List.drop_zero]
 
 /-- PLI accepts only an empty body -/
 theorem pli_parse_ok_iff (d v : Bytes) : Pli.parse d = .ok v ↔ v = d ∧ d = [] := by
@@ -104,31 +191,140 @@ theorem parseFci_eq (k : FbKind) (f : Fb.FciType) (d : Bytes) (h : Fb.parse k d 
       (if (f = .nack ↔ k = .transport) ∧ count d = f.format.toNat
        then f.parse (range d 12 (d.length - padLen d))
        else .err .wrongImplementation) := by
-  sorry
+  obtain ⟨_, hwf, hpad⟩ := (fb_parse_ok_iff k d d).mp h
+  obtain ⟨h12, h4, _, _, hlf, _⟩ := (Read.wellFramed_iff 12 k.pt d).mp hwf
+  unfold Fb.parseFci
+  rw [Read.parseCount_ok d (by omega), Read.parsePadding_ok d h4 hlf]
+  simp only [R.ok_bind]
+  have hpl : ((paddingOf d).getD 0).toNat = padLen d := rfl
+  rw [hpl, Read.usub_ok _ _ (by omega), R.ok_bind, Read.slice_ok _ _ _ ⟨by omega, by omega⟩, R.ok_bind]
+  have hc : ((count d).toUInt8 != f.format) = decide (count d ≠ f.format.toNat) := by
+    have := Read.count_toUInt8_toNat d
+    by_cases hh : (count d).toUInt8 = f.format
+    · have : count d = f.format.toNat := by rw [← hh, this]
+      simp [this]
+    · have h2 : count d ≠ f.format.toNat := by
+        intro hx; apply hh; apply UInt8.toNat_inj.mp; rw [this, hx]
+      simp [hh, h2]
+  rw [hc]
+  cases f <;> cases k <;>
+    simp [Fb.FciType.packetType, FbKind.ty, FbType.and, FbType.none, FbType.TRANSPORT, FbType.PAYLOAD]
 
 /-- FIR: one entry per map entry (any order of the map gives the corresponding order of entries) -/
 theorem fir_roundtrip (entries : List (UInt32 × UInt8)) :
     firDecode (firImage ⟨entries⟩) = entries.map (fun (s, q) => (s.toNat, q.toNat)) := by
-  sorry
+  induction entries with
+  | nil => rfl
+  | cons e es ih =>
+    obtain ⟨s, q⟩ := e
+    have ih' : firDecode (List.map firEntryImage es).flatten = es.map (fun (s, q) => (s.toNat, q.toNat)) := ih
+    simp only [firImage, List.map_cons, List.flatten_cons, firEntryImage, be32, List.cons_append,
+      List.nil_append, firDecode, words64, List.map_cons]
+    have := s.toNat_lt
+    rw [show List.map _ (words64 (List.map firEntryImage es).flatten) = _ from ih']
+    congr 1
+    rw [toUInt8_toNat_lt _ (by omega), toUInt8_toNat_lt _ (by omega), toUInt8_toNat_lt _ (by omega), toUInt8_toNat_lt _ (by omega)]
+    congr 1
+    omega
 
 /-- the FIR map: key-unique, re-adding an SSRC keeps the last sequence -/
 theorem fir_upsert_lookup (m : List (UInt32 × UInt8)) (k k' : UInt32) (v : UInt8) :
     (FirBuilder.upsert k v m).lookup k' = if k' = k then some v else m.lookup k' := by
-  sorry
+  induction m with
+  | nil => 
+    simp only [FirBuilder.upsert, List.lookup]
+    by_cases h : k' = k
+    · simp [h]
+    · have : (k' == k) = false := by simpa using h
+      simp [h, this]
+  | cons e es ih =>
+    obtain ⟨a, b⟩ := e
+    simp only [FirBuilder.upsert]
+    by_cases hak : a = k
+    · subst hak
+      simp only [beq_self_eq_true, if_true, List.lookup]
+      by_cases h : k' = a
+      · simp [h]
+      · have : (k' == a) = false := by simpa using h
+        simp [h, this]
+    · have : (a == k) = false := by simpa using hak
+      simp only [this, Bool.false_eq_true, if_false, List.lookup, ih]
+      by_cases h : k' = a
+      · subst h; simp [hak]
+      · have : (k' == a) = false := by simpa using h
+        simp [this]
 
 theorem fir_upsert_keys_unique (m : List (UInt32 × UInt8)) (k : UInt32) (v : UInt8)
     (h : (m.map (·.1)).Nodup) : ((FirBuilder.upsert k v m).map (·.1)).Nodup := by
-  sorry
+  induction m with
+  | nil => simp [FirBuilder.upsert]
+  | cons e es ih =>
+    obtain ⟨a, b⟩ := e
+    simp only [List.map_cons, List.nodup_cons] at h
+    simp only [FirBuilder.upsert]
+    by_cases hak : a = k
+    · subst hak; simpa using h
+    · have : (a == k) = false := by simpa using hak
+      simp only [this, Bool.false_eq_true, if_false, List.map_cons, List.nodup_cons]
+      refine ⟨?_, ih h.2⟩
+      rw [upsert_keys_mem]
+      intro hh
+      rcases hh with hh | hh
+      · exact hak hh
+      · exact h.1 hh
 
 /-- SLI: the same (first, number, picture-id) entries in order, within the 13/13/6-bit ranges -/
 theorem sli_roundtrip (es : List MacroBlockEntry)
     (h : ∀ e ∈ es, e.start.toNat < 8192 ∧ e.count.toNat < 8192 ∧ e.pictureId.toNat < 64) :
     sliDecode (sliImage ⟨es⟩) = es.map (fun e => (e.start.toNat, e.count.toNat, e.pictureId.toNat)) := by
-  sorry
+  induction es with
+  | nil => rfl
+  | cons e es ih =>
+    have ih' : sliDecode (List.map sliEntryImage es).flatten
+        = es.map (fun e => (e.start.toNat, e.count.toNat, e.pictureId.toNat)) :=
+      ih (fun e he => h e (List.mem_cons_of_mem _ he))
+    obtain ⟨h1, h2, h3⟩ := h e List.mem_cons_self
+    simp only [sliImage, List.map_cons, List.flatten_cons, sliEntryImage, be32, List.cons_append,
+      List.nil_append, sliDecode, words32, List.map_cons]
+    rw [show List.map _ (words32 (List.map sliEntryImage es).flatten) = _ from ih']
+    congr 1
+    rw [toUInt32_toNat_lt _ (by omega)]
+    rw [toUInt8_toNat_lt _ (by omega), toUInt8_toNat_lt _ (by omega), toUInt8_toNat_lt _ (by omega), toUInt8_toNat_lt _ (by omega)]
+    refine Prod.ext ?_ (Prod.ext ?_ ?_) <;> simp only <;> omega
 
 /-- RPSI: the same payload type and the same bit string bit for bit -/
 theorem rpsi_roundtrip (b : RpsiBuilder) (h : rpsiRules b = []) :
     rpsiDecode (rpsiImage b) = some (b.payloadType.toNat, rpsiBits b.nativeBitString b.nativeBitOverrun.toNat) := by
-  sorry
+  obtain ⟨pt, data, k⟩ := b
+  simp only [rpsiRules, List.append_eq_nil_iff, ite_eq_right_iff, List.cons_ne_self, imp_false,
+    not_or, not_and] at h
+  obtain ⟨hpt, hk, hemp⟩ := h
+  have hp := pad4_bounds (2 + data.length)
+  simp only [rpsiImage, rpsiDecode, List.cons_append, List.nil_append, rpsiBits]
+  rw [toUInt8_toNat_lt _ (by omega)]
+  congr 1
+  refine Prod.ext (by simp only; omega) ?_
+  simp only
+  rcases List.eq_nil_or_concat data with hd | ⟨init, l, hd⟩
+  · subst hd
+    have : k.toNat = 0 := by have := hemp rfl; omega
+    simp only [List.getLast?_nil, List.nil_append, List.length_nil, List.length_replicate, this,
+      bitsOf_nil, List.take_nil] at hp ⊢
+    rw [show 8 * (pad4 (2 + 0) - 0 - 2) - (8 * (pad4 (2 + 0) - 0 - 2) + 0) % 256 = 0 by omega]
+    rfl
+  · rw [List.concat_eq_append] at hd
+    subst hd
+    simp only [List.getLast?_append, List.getLast?_singleton, Option.some_or, List.dropLast_concat,
+      List.length_append, List.length_singleton, List.length_replicate, bitsOf_append] at hp ⊢
+    rw [show 8 * (init.length + 1 + (pad4 (2 + (init.length + 1)) - (init.length + 1) - 2))
+        - (8 * (pad4 (2 + (init.length + 1)) - (init.length + 1) - 2) + k.toNat) % 256
+        = (bitsOf init).length + (8 - k.toNat) by rw [bitsOf_length]; omega,
+      show 8 * (init.length + 1) - k.toNat = (bitsOf init).length + (8 - k.toNat) by
+        rw [bitsOf_length]; omega]
+    rw [List.append_assoc, List.take_length_add_append, List.take_length_add_append]
+    congr 1
+    rw [List.take_append_of_le_length (by rw [bitsOf_length]; simp)]
+    simp only [bitsOf_cons, bitsOf_nil, List.append_nil]
+    exact mask_bits' l k.toNat (by omega)
 
 end Rtcp.Proofs
